@@ -33,8 +33,10 @@ pub struct C17Case {
 pub const ENDINGS: [&str; 9] = [
     "close_after_exchange", "quit", "quitq", "close_mid_header", "close_mid_body", "reset", "protocol_error", "oversized_then_close", "give_up",
 ];
+/// kind 6 has two flavours: after the invalid header the client closes, or (sel odd) stays connected and silent -
+/// the server must end the connection on its own and return the slot
 
-pub const RULE: &str = "proptest sequences of connection lifecycles against an in-process server with connection limit 1..4 (2-worker runtime, and current-thread runtime with 1..3 listener threads sharing the server on one port as in memcrsd's current-thread mode): Open steps (up to limit+3 connections open at once) and End steps ending a selected open connection by client close after a complete exchange, quit, quitq, close in the middle of a header, close in the middle of a body, abortive reset, protocol error (bad magic), oversized item followed by close, or (for a connection still waiting) giving up; plus idle-timeout scenarios (server timeout 1 s) in which served connections are left idle or stalled inside a header, a body or an oversized body, and a scenario in which a waiting connection outlives the receive timeout while the served one stays busy. After EVERY step a noop is outstanding on every open connection and the slot model is checked: exactly min(limit, open) connections have been answered (waited for without a deadline as a correctness signal: a shortfall is re-confirmed after a second 5 s wait), never more than limit, and every unanswered open connection shows positive evidence of not being served - its 24 request bytes are still unread in the server-side receive queue (FIONREAD on the accepted socket or rx_queue in /proc/net/tcp) and stay so over a 40 ms grace. At the end all connections are closed, `limit` fresh ones must all be served and one more must not. non-trivial = more than `limit` connections were open at some point and at least 4 different ending kinds were used";
+pub const RULE: &str = "proptest sequences of connection lifecycles against an in-process server with connection limit 1..4 (2-worker runtime, and current-thread runtime with 1..3 listener threads sharing the server on one port as in memcrsd's current-thread mode): Open steps (up to limit+3 connections open at once) and End steps ending a selected open connection by client close after a complete exchange, quit, quitq, close in the middle of a header, close in the middle of a body, abortive reset, protocol error (bad magic; the client then closes, or stays connected and silent), oversized item followed by close, or (for a connection still waiting) giving up; plus idle-timeout scenarios (server timeout 1 s) in which served connections are left idle or stalled inside a header, a body or an oversized body, and a scenario in which a waiting connection outlives the receive timeout while the served one stays busy. After EVERY step a noop is outstanding on every open connection and the slot model is checked: exactly min(limit, open) connections have been answered (waited for without a deadline as a correctness signal: a shortfall is re-confirmed after a second 5 s wait), never more than limit, and every unanswered open connection shows positive evidence of not being served - its 24 request bytes are still unread in the server-side receive queue (FIONREAD on the accepted socket or rx_queue in /proc/net/tcp) and stay so over a 40 ms grace. At the end all connections are closed, `limit` fresh ones must all be served and one more must not. non-trivial = more than `limit` connections were open at some point and at least 4 different ending kinds were used";
 pub const ASSUME: &[&str] = &[
     "which waiting connection is served next is not asserted",
     "the 40 ms over-serve grace can only miss, never alarm; the under-serve wait alarms only if the machine stalls for 5 s twice",
@@ -48,6 +50,8 @@ struct Conn {
 }
 
 struct World {
+    /// clients that sent an invalid header and stay connected without reading or writing
+    zombies: Vec<Client>,
     port: u16,
     limit: usize,
     open: Vec<Conn>,
@@ -186,6 +190,12 @@ impl World {
                 let mut f = wire::simple(wire::NOOP, 4).bytes();
                 f[0] = 0x11;
                 World::write_raw(&mut c, &f);
+                if c.id % 2 == 1 {
+                    // stay connected and silent: ending the connection is the server's job
+                    self.kinds_used.insert(14);
+                    self.zombies.push(c.cl);
+                    return "protocol_error_client_stays_connected".to_string();
+                }
                 let _ = c.cl.read_to_eof(wait);
                 c.cl.close();
             }
@@ -222,6 +232,7 @@ pub fn run_case(case: &C17Case) -> CaseReport {
         }
     };
     let mut w = World {
+        zombies: vec![],
         port: server.port,
         limit: case.limit as usize,
         open: vec![],
@@ -400,6 +411,7 @@ pub fn run_case(case: &C17Case) -> CaseReport {
             match *k {
                 9 => "idle_timeout".to_string(),
                 10..=13 => format!("idle_timeout_while_{}", ["idle", "mid_header", "mid_body", "mid_oversized_body"][(*k - 10) as usize]),
+                14 => "protocol_error_client_stays_connected".to_string(),
                 k => ENDINGS[k as usize].to_string(),
             }
         ));
